@@ -1,13 +1,28 @@
 //! One module per property.
 
-pub mod c0506;
+pub mod c01;
+pub mod c19;
+pub mod c20;
+pub mod cpusweep;
+pub mod c13;
+pub mod c14;
+pub mod c15;
+pub mod c16;
 pub mod c17;
 
 pub fn run(id: &str, tier: &str) -> i32 {
   match id {
-    "C05" => c0506::run("C05", tier),
-    "C06" => c0506::run("C06", tier),
+    "C01" => c01::run("C01", tier),
+    "C02" => c01::run("C02", tier),
+    "C05" => cpusweep::run("C05", tier),
+    "C06" => cpusweep::run("C06", tier),
+    "C13" => c13::run(tier),
+    "C14" => c14::run(tier),
+    "C15" => c15::run(tier),
+    "C16" => c16::run(tier),
     "C17" => c17::run(tier),
+    "C19" => c19::run(tier),
+    "C20" => c20::run(tier),
     _ => {
       eprintln!("unknown property id {}", id);
       2
